@@ -4,7 +4,7 @@ EXTENDS Store
 
 Lay(n) == CASE n = 0 -> [dpad |-> 0,    ipad |-> 0,    codec |-> "mh"]
             [] n = 1 -> [dpad |-> 1,    ipad |-> 7,    codec |-> "sorted"]
-            [] n = 2 -> [dpad |-> 1413, ipad |-> 1407, codec |-> "mh"]
+            [] n = 2 -> [dpad |-> 1413, ipad |-> 4096, codec |-> "mh"]
             [] n = 3 -> [dpad |-> 8,    ipad |-> 1,    codec |-> "sorted"]
 
 B2N(b) == IF b THEN 1 ELSE 0
@@ -23,13 +23,14 @@ SemProbes  == {"b1", "b2", "b3", "b4", "b5", "b7", "b8", "b10", "b11", "b20"}
 
 (* C05: layouts x identity x v1, roots incl. none / v0 / duplicate; boundary-length blocks *)
 LayOpts == { MkOpt(FALSE, d, i, v, 2048, l) : d \in {FALSE}, i \in BOOLEAN, v \in BOOLEAN, l \in 0..3 }
-LayRoots   == { <<>>, <<"b1">>, <<"b3", "b4">>, <<"b1", "b1">>, <<"b13">> }
+LayRoots   == { <<>>, <<"b1">>, <<"b3", "b4">>, <<"b1", "b1">>, <<"b13">>, <<"b10">> }
 LayPutIds  == {"b1", "b5", "b10", "b12", "b13", "b14", "b15", "b16"}
 LayMany    == { <<"b13", "b14">> }
 LayProbes  == {"b1", "b5", "b13", "b14"}
 
 (* C12: interleavings of puts and interruptions; every reopen variant *)
 ResOpts == { MkOpt(FALSE, d, i, v, 2048, l) : d \in BOOLEAN, i \in BOOLEAN, v \in BOOLEAN, l \in 0..2 }
+ResOptsQ == { o \in ResOpts : o.dpad < 1000 }     \* quick tier: the two small layouts
 ResRoots   == { <<"b1">>, <<"b3", "b4">>, <<>>, <<"b1", "b1">> }
 ResPutIds  == {"b1", "b12", "b5"}     \* b12: a section that ends with its CID (no data bytes)
 ResMany    == {}
